@@ -25,4 +25,4 @@ META = dict(
 
 
 def run(ctx):
-    base.sweep(ctx, "C09", 60 if ctx.quick else 1200, [3, 3, 4, 5])
+    base.sweep(ctx, "C09", 45 if ctx.quick else 1200, [3, 3, 4, 5])
